@@ -3,25 +3,26 @@
 checks named on the command line as NAME=C01,C02), undo it, and record the outcome in seeded/<name>/result.json."""
 import json, os, subprocess, sys, time
 SEED = "/verif/seeded"
+REPO = os.environ.get("SWEEP_REPO", "/repo")      # a scratch worktree can be swept instead of /repo (TUCAN_REPO is passed on)
 only = [a for a in sys.argv[1:] if "=" not in a]
 extra = dict(a.split("=") for a in sys.argv[1:] if "=" in a)
 def sh(*a, **k): return subprocess.run(a, capture_output=True, text=True, **k)
-assert sh("git", "-C", "/repo", "status", "--porcelain").stdout.strip() == "", "repo dirty"
+assert sh("git", "-C", REPO, "status", "--porcelain").stdout.strip() == "", "repo dirty"
 for name in sorted(os.listdir(SEED)):
     if only and name not in only: continue
     d = os.path.join(SEED, name)
     meta = json.load(open(d + "/meta.json"))
     props = [meta["breaks"]] + [p for p in extra.get(name, "").split(",") if p]
-    if sh("git", "-C", "/repo", "apply", d + "/patch.diff").returncode != 0:
+    if sh("git", "-C", REPO, "apply", d + "/patch.diff").returncode != 0:
         print(name, "PATCH DOES NOT APPLY"); continue
     res = {}
     try:
         for p in props:
             t = time.time()
-            r = sh("/venv/bin/python", "harness/check.py", "--property", p, "--tier", "quick", cwd="/verif")
+            r = sh("/venv/bin/python", "harness/check.py", "--property", p, "--tier", "quick", cwd="/verif", env=dict(os.environ, TUCAN_REPO=REPO))
             viol = [l for l in r.stdout.splitlines() if l.startswith("VIOLATION")]
             res[p] = {"rc": r.returncode, "violations": len(viol), "first": viol[0][:240] if viol else "", "wall_s": round(time.time() - t)}
             print(name, p, "rc=%d" % r.returncode, (viol[0][:150] if viol else r.stdout.strip().splitlines()[-1][:150] if r.stdout.strip() else ""), flush=True)
     finally:
-        sh("git", "-C", "/repo", "checkout", "--", "."); sh("git", "-C", "/repo", "clean", "-qfd", "tucan")
+        sh("git", "-C", REPO, "checkout", "--", "."); sh("git", "-C", REPO, "clean", "-qfd", "tucan")
     json.dump(res, open(d + "/result.json", "w"), indent=1)
